@@ -19,10 +19,11 @@ type State struct {
 	globals map[*ssa.Global]Val
 	top     string // allocation frontier
 	epoch   string // names the initial value of untouched heap arrays
+	defers  []*deferred
 }
 
 func (s *State) clone() *State {
-	n := &State{pc: s.pc, top: s.top, epoch: s.epoch,
+	n := &State{pc: s.pc, top: s.top, epoch: s.epoch, defers: s.defers,
 		cells:   make(map[*Cell]Val, len(s.cells)),
 		heap:    make(map[string]string, len(s.heap)),
 		globals: make(map[*ssa.Global]Val, len(s.globals))}
@@ -127,7 +128,18 @@ func (e *Engine) heapTerm(st *State, name, sort string) string {
 	}
 	e.heapSorts[name] = sort
 	init := name + "@" + st.epoch
-	e.ctx.Global(init, fmt.Sprintf("(declare-fun %s () %s)", init, sort))
+	if !e.ctx.decls[init] {
+		e.ctx.Global(init, fmt.Sprintf("(declare-fun %s () %s)", init, sort))
+		// heap well-formedness: every reference stored in the heap denotes an allocated object
+		if strings.HasSuffix(name, ".ref") || strings.HasSuffix(name, ".val") || refHeaps[name] {
+			switch sort {
+			case "(Array Int Int)":
+				e.ctx.Assume(fmt.Sprintf("(forall ((r Int)) (! (<= (select %s r) %s) :pattern ((select %s r))))", init, st.top, init))
+			case "(Array Int (Array Int Int))":
+				e.ctx.Assume(fmt.Sprintf("(forall ((r Int) (i Int)) (! (<= (select (select %s r) i) %s) :pattern ((select (select %s r) i))))", init, st.top, init))
+			}
+		}
+	}
 	return init
 }
 
@@ -156,6 +168,16 @@ func heapName(structT types.Type, fieldPath string, suffix string) string {
 	return "H$" + typeKey(structT) + sanitize(fieldPath+suffix)
 }
 
+// refHeaps: heap arrays whose values are object references (pointer, map, chan fields)
+var refHeaps = map[string]bool{}
+
+func noteRefHeap(name string, t types.Type) {
+	switch under(t).(type) {
+	case *types.Pointer, *types.Map, *types.Chan:
+		refHeaps[name] = true
+	}
+}
+
 func memName(elem types.Type, suffix string) string {
 	return "M$" + typeKey(elem) + sanitize(suffix)
 }
@@ -170,7 +192,11 @@ func (e *Engine) loadHeapField(st *State, structT types.Type, ref string, path [
 	cs := flat(ft)
 	ts := make([]string, len(cs))
 	for i, c := range cs {
-		arr := e.heapTerm(st, heapName(structT, fname, c.Suffix), "(Array Int "+c.Sort+")")
+		hn := heapName(structT, fname, c.Suffix)
+		if len(cs) == 1 {
+			noteRefHeap(hn, ft)
+		}
+		arr := e.heapTerm(st, hn, "(Array Int "+c.Sort+")")
 		ts[i] = sx("select", arr, ref)
 	}
 	v := buildAll(ft, ts)
@@ -396,6 +422,17 @@ func (e *Engine) mergeStates(edges []edge) *State {
 	}
 	out := &State{cells: map[*Cell]Val{}, heap: map[string]string{}, globals: map[*ssa.Global]Val{}}
 	out.pc = e.ctx.Define("pc", "Bool", or(pcs...))
+	out.defers = edges[0].st.defers
+	for _, ed := range edges[1:] {
+		if len(ed.st.defers) != len(out.defers) {
+			unsup("paths with different sets of deferred calls join")
+		}
+		for i := range out.defers {
+			if ed.st.defers[i] != out.defers[i] {
+				unsup("paths with different deferred calls join")
+			}
+		}
+	}
 	// top
 	out.top = e.mergeTerms("top", "Int", pcs, func(i int) string { return edges[i].st.top })
 	// cells
